@@ -440,6 +440,11 @@ impl<'l> StringTokenizer<'l> {
         'outer: loop {
             if let Some(next) = self.scanner.peek() {
                 match next {
+                    // after `0x` every hexadecimal digit belongs to the number
+                    _ if base == 16 && next.is_ascii_hexdigit() => {
+                        working.push(next);
+                        self.scanner.next();
+                    }
                     '0' => {
                         working.push(next);
                         self.scanner.next();
